@@ -6,7 +6,10 @@
 //! `Vec<bool>`, (4) the wavelet trees against a plain symbol vector.
 
 mod bits;
+mod components;
 mod docs;
+mod exemplars;
+mod mixes;
 mod textgen;
 mod wavelet;
 
@@ -38,6 +41,10 @@ fn main() {
     .assume("WaveletTree: rank_q(q, x) for x in 0..=len, select_q(q, k) = one past the k-th q (Some(0) for k = 0), None beyond; symbols that do not occur may give None or zero.")
     .pbt(docs::DocQueries)
     .pbt(docs::DocSerialize)
+    .pbt(mixes::DocMixes)
+    .pbt(mixes::BigAlphabets)
+    .pbt(components::Components)
+    .pbt(exemplars::Exemplars)
     .pbt(bits::BitVectors(bits::Impl::Rrr))
     .pbt(bits::BitVectors(bits::Impl::CfRrr))
     .pbt(bits::BitVectors(bits::Impl::Sparse))
